@@ -175,9 +175,25 @@ fn child_run<D: Distance>(dir: &Path, spec: &HistorySpec, start: usize, kill: &K
         wtxn.commit().expect("commit");
         say(&format!("ACK {v}"));
     }
+    // further versions on the same environment (used after a recovery): overwrite one reserved item and
+    // rebuild, `extra` times
+    let extra: u32 = std::env::var("VERIF_C09_EXTRA").ok().and_then(|s| s.parse().ok()).unwrap_or(0);
+    for e in 0..extra {
+        let mut wtxn = tenv.env.write_txn().expect("write txn");
+        w.add_item(&mut wtxn, EXTRA_ITEM, &vector(isp.class, 1000 + e, isp.dims)).expect("add");
+        let mut rng = <rand::rngs::StdRng as rand::SeedableRng>::seed_from_u64(e as u64);
+        let res = crate::engine::in_pool(1, || w.builder(&mut rng).build(&mut wtxn));
+        if let Err(err) = res {
+            say(&format!("BUILDFAIL {} {err:?}", spec.rounds.len() + 1 + e as usize));
+            return 3;
+        }
+        wtxn.commit().expect("commit");
+    }
     say("DONE");
     0
 }
+
+pub const EXTRA_ITEM: u32 = 3_999_999_999;
 
 struct ChildResult {
     last_ack: usize,
@@ -188,9 +204,10 @@ struct ChildResult {
     build_failed: bool,
 }
 
-fn spawn_child(dir: &Path, spec_file: &Path, start: usize, kill: &Kill) -> Result<Child, Fail> {
+fn spawn_child(dir: &Path, spec_file: &Path, start: usize, kill: &Kill, extra: u32) -> Result<Child, Fail> {
     let exe = std::env::current_exe().map_err(|e| Fail::Infra(format!("current_exe: {e}")))?;
     Command::new(exe)
+        .env("VERIF_C09_EXTRA", extra.to_string())
         .arg("child-crash")
         .arg(dir)
         .arg(spec_file)
@@ -203,7 +220,11 @@ fn spawn_child(dir: &Path, spec_file: &Path, start: usize, kill: &Kill) -> Resul
 }
 
 fn drive_child(dir: &Path, spec_file: &Path, start: usize, kill: &Kill, last_ack_before: usize) -> Result<ChildResult, Fail> {
-    let mut child = spawn_child(dir, spec_file, start, kill)?;
+    drive_child_extra(dir, spec_file, start, kill, last_ack_before, 0)
+}
+
+fn drive_child_extra(dir: &Path, spec_file: &Path, start: usize, kill: &Kill, last_ack_before: usize, extra: u32) -> Result<ChildResult, Fail> {
+    let mut child = spawn_child(dir, spec_file, start, kill, extra)?;
     let stdout = child.stdout.take().unwrap();
     let mut res = ChildResult { last_ack: last_ack_before, committing: None, calls: BTreeMap::new(), parked: false, done: false, build_failed: false };
     let pid = child.id() as i32;
@@ -521,7 +542,27 @@ pub fn crash_case<D: Distance>(c: &CrashCase, max_kills: usize, st: &mut CaseSta
             // (always for the larger histories: a fresh process building on the directory of a killed one is
             // where leftovers of the kill - e.g. in the private temp directory - would be picked up)
             let big = spec.rounds.iter().map(|r| r.ops.len()).sum::<usize>() > 150;
-            if (ki % 4 == 0 || big) && a < last {
+            // If the killed process left anything in the private temp directory, spend more effort here: a
+            // fresh process continues the history AND commits 40 further versions on the same environment
+            // (so that whatever naming / reuse scheme the leftovers belong to gets its chance to collide).
+            // The oracle stays the same: the final committed state must be exactly the expected one.
+            let leftovers = std::fs::read_dir(dir.join("arroy-tmp")).map(|d| d.count()).unwrap_or(0);
+            if leftovers > 0 {
+                st.bump("kills_leaving_temp_files");
+                let extra = 40u32;
+                let r2 = drive_child_extra(&dir, &spec_file, a, &Kill::None, a, extra)?;
+                if !r2.done {
+                    return violation("crash:not-resumable", format!("{what}: continuing the history for {extra} more versions on the recovered environment failed"));
+                }
+                let mut final_state = versions[last].clone();
+                final_state.items.insert(EXTRA_ITEM, vector(spec.indexes[0].class, 1000 + extra - 1, spec.indexes[0].dims));
+                final_state.built = true;
+                final_state.stale = false;
+                let mut vs = versions.clone();
+                vs.push(final_state);
+                verify_dir::<D>(&dir, spec, &vs, &[vs.len() - 1], &format!("{what}, then continued for {extra} more committed versions in a fresh process"))?;
+                st.bump("chains_resumed_extended");
+            } else if (ki % 4 == 0 || big) && a < last {
                 let r2 = drive_child(&dir, &spec_file, a, &Kill::None, a)?;
                 if !r2.done {
                     return violation("crash:not-resumable", format!("{what}: resuming the history from version {a} on the recovered environment did not finish"));
